@@ -104,4 +104,32 @@ theorem abs_pos_beta_le (jde : ℝ) (h : |cent jde| ≤ 60) : |pos_sigmab (cent 
   norm_num
   linarith
 
+/-! ### secular motion of the mean node and the mean perigee (the polynomials before `Angle`) -/
+
+theorem node_poly_eq (t : ℝ) : node_poly t =
+    125.0445479 + (-1934.1362891 + (0.0020754 + (1 / 476441 + (-1 / 60616000) * t) * t) * t) * t := by
+  show ((125.0445479 : ℝ) + (-1934.1362891 + (0.0020754 + (1.0 / 476441.0 - t / 60616000.0) * t) * t) * t) = _
+  rw [show (1.0 : ℝ) = 1 by norm_num, show (476441.0 : ℝ) = 476441 by norm_num, show (60616000.0 : ℝ) = 60616000 by norm_num]
+  ring
+
+theorem perigee_poly_eq (t : ℝ) : perigee_poly t =
+    83.3532465 + (4069.0137287 + (-0.01032 + (-1 / 80053 + (1 / 18999000) * t) * t) * t) * t := by
+  show ((83.3532465 : ℝ) + (4069.0137287 + (-0.01032 + (-1.0 / 80053.0 + t / 18999000.0) * t) * t) * t) = _
+  rw [show (1.0 : ℝ) = 1 by norm_num, show (80053.0 : ℝ) = 80053 by norm_num, show (18999000.0 : ℝ) = 18999000 by norm_num]
+  ring
+
+theorem node_poly_rate {t t' : ℝ} (ht : |t| ≤ 60) (ht' : |t'| ≤ 60) :
+    |node_poly t' - node_poly t - (-1934.1362891) * (t' - t)| ≤ |t' - t| * (29 / 100) := by
+  rw [node_poly_eq, node_poly_eq]
+  refine (quartic_rate _ _ _ _ _ ht ht').trans ?_
+  apply mul_le_mul_of_nonneg_left _ (abs_nonneg _)
+  norm_num [abs_of_pos, abs_of_neg]
+
+theorem perigee_poly_rate {t t' : ℝ} (ht : |t| ≤ 60) (ht' : |t'| ≤ 60) :
+    |perigee_poly t' - perigee_poly t - 4069.0137287 * (t' - t)| ≤ |t' - t| * (142 / 100) := by
+  rw [perigee_poly_eq, perigee_poly_eq]
+  refine (quartic_rate _ _ _ _ _ ht ht').trans ?_
+  apply mul_le_mul_of_nonneg_left _ (abs_nonneg _)
+  norm_num [abs_of_pos, abs_of_neg]
+
 end Pymeeus.GenR.MoonM
